@@ -277,7 +277,9 @@ Definition sumN (l : list N) : N := fold_right N.add 0%N l.
    requests 0..maxreq, at most maxrel live releasers, permits + outstanding <= budget *)
 Definition enabled (x : xstate) : list (list N) :=
   let s := xs x in
-  let reqs := map N.of_nat (seq 0 (S (N.to_nat (x_maxreq x)))) in
+  (* budget = usize::MAX marks the boundary configuration: requests of (almost) all permits too *)
+  let reqs := map N.of_nat (seq 0 (S (N.to_nat (x_maxreq x))))
+              ++ (if N.eqb (x_budget x) MAXU then [MAXU; MAXU - 1] else [])%N in
   let room := Nat.ltb (length (rels s)) (x_maxrel x) in
   map encode
     (flat_map (fun f =>
